@@ -5,7 +5,7 @@
     which shows the hypotheses are satisfiable). *)
 From stdpp Require Import gmap sets list.
 From Coq Require Import NArith.
-From SV Require Import SM.IndexModel SM.IndexProofs.
+From SV Require Import SM.IndexModel SM.IndexProofs SM.IndexSearchProofs.
 
 Section C07.
   Variable fold : str → str.
@@ -47,6 +47,13 @@ Section C07.
     e ∈ ix_get (by_target st) k ↔ present st e ∧ tgt_of fold st e = k.
   Proof. exact (inv_by_target fold). Qed.
 
+  (** VMF.search(name) returns exactly the entities in the map whose current targetname (exact or [prefix*] form)
+      or current classname matches case-insensitively ([search_spec], SM/IndexSearchProofs.v); unnamed entities
+      are never found by name and the empty query finds nothing. Needs folding to be idempotent. *)
+  Theorem c07_search_sound_complete : (∀ s, fold (fold s) = fold s) → ∀ name st e, Inv fold st →
+    e ∈ search fold name st ↔ search_spec fold name st e.
+  Proof. intros Hidem name st e. by apply search_sound_complete. Qed.
+
   (** The worldspawn entity always has class 'worldspawn' and is always listed under it. *)
   Theorem c07_worldspawn_pinned : ∀ ops m st, wrun fold ops [] !! m = Some st →
     cls_of fold st (spawn st) = ws ∧ spawn st ∈ ix_get (by_class st) ws.
@@ -60,6 +67,14 @@ End C07.
 Example c07_ascii_fold_ok :
   ascii_fold [] = [] ∧ ascii_fold cn = cn ∧ ascii_fold tn = tn ∧ ascii_fold ws = ws.
 Proof. repeat split. Qed.
+Example c07_ascii_fold_idem : ∀ s, ascii_fold (ascii_fold s) = ascii_fold s.
+Proof.
+  intros s. unfold ascii_fold. rewrite map_map. apply map_ext. intros c. unfold ascii_lower.
+  destruct ((65 <=? c) && (c <=? 90))%N eqn:E; [|by rewrite E].
+  apply andb_true_iff in E as [E1 E2]. apply N.leb_le in E1, E2.
+  assert (((65 <=? c + 32) && (c + 32 <=? 90))%N = false) as ->; [|done].
+  apply andb_false_iff. right. apply N.leb_gt. lia.
+Qed.
 
 (** Not vacuous: a history in which a mixed-case class and name are set, changed and the entity removed. *)
 Example c07_history_example :
